@@ -340,9 +340,10 @@ def run(ctx):
 
     ctx.cov = dict(
         evaluations=evaluations,
-        distinct_nontrivial=len(inputs) + tot,
-        rule="distinct (kind, input) tuples executed on the real API and compared with what Uuid.tla requires, plus the "
-             "concurrently generated UUIDs (each checked to be a v1 UUID and pairwise distinct by TLC)",
+        distinct_nontrivial=len(inputs),
+        rule="distinct (kind, input) tuples executed on the real API and compared with what Uuid.tla requires (the "
+             "concurrently generated UUIDs, each checked by TLC to be a v1 UUID and all pairwise distinct, are counted in "
+             "evaluations and under 'concurrent' only)",
         generated_cases=bykind, generator_states=gen_states, recorded_vectors=vk,
         misplaced_hyphen_strings=gray,
         concurrent=dict(goroutines=conc_g, calls_each=conc_m, uuids=tot, shards=len(files), distinct=conc_ok),
